@@ -218,6 +218,10 @@ class _CGMYLevyMeasure(LevyMeasure):
         if alpha == 0:
             return scipy.special.exp1(uh)
 
+        if h == 0 and alpha < 0:
+            # finite activity: integral(exp(-ux) x^(-1-alpha), x=0...inf) = gamma(-alpha) u^alpha
+            return scipy.special.gamma(-alpha) * u**alpha
+
         expmuh = np.exp(-uh)
         if alpha >= 1:
             return expmuh / (alpha * h**alpha) - (
